@@ -552,6 +552,31 @@ func programs() []program {
 		})
 	}
 
+	// the caller gives up (its context ends) while members are still at work: when Execute has returned, the members
+	// have - the caller may look at what they wrote and reuse what it handed them
+	for _, st := range []group.ExecutionStrategy{group.ExecutionStrategyAll, group.ExecutionStrategyMost, group.ExecutionStrategyAny} {
+		st := st
+		add(fmt.Sprintf("group/strategy=%d, the caller's context ends meanwhile, member state read after the return", st), func() {
+			ctx, cancel := context.WithCancel(bg)
+			state := make([]int, 3)
+			mk := func(i int) group.Member {
+				return func(ctx context.Context) (proto.Message, error) {
+					if i == 0 {
+						cancel() // the first member to run takes the caller's patience with it
+					}
+					state[i] = i + 1
+					return tm(i + 1), nil
+				}
+			}
+			res, _ := group.Execute(ctx, st, []group.Member{mk(0), mk(1), mk(2)})
+			for i, r := range res {
+				touch(r)
+				_ = state[i]
+			}
+			cancel()
+		})
+	}
+
 	// ---- trait models
 	add("parent/AddChildTrait||RemoveChildTrait||ListChildren", func() {
 		p := parentpb.NewModel()
